@@ -108,6 +108,24 @@ func (t *vregThread) spawn(fn func(ctx context.Context) string) {
 	}()
 }
 
+// tryAdvance releases the thread and waits at most d for it to block again or finish; reached=false means the
+// thread is parked somewhere off a scheduling point (e.g. it joined another caller's single flight) and may still
+// report later (collect with await).
+func (t *vregThread) tryAdvance(ok bool, d time.Duration) (vregEvent, bool) {
+	t.resume <- ok
+	return t.await(d)
+}
+
+func (t *vregThread) await(d time.Duration) (vregEvent, bool) {
+	select {
+	case ev := <-t.report:
+		t.Last = ev
+		return ev, true
+	case <-time.After(d):
+		return vregEvent{}, false
+	}
+}
+
 // advance releases the thread with the given outcome and waits until it blocks again or finishes.
 func (t *vregThread) advance(ok bool) (vregEvent, error) {
 	if t.Last.Finished {
